@@ -1,6 +1,7 @@
 package main
 
 import (
+	"encoding/json"
 	"fmt"
 )
 
@@ -271,7 +272,8 @@ func init() {
 
 func init() {
 	props["C04"] = &propDef{header: "From BE Require Import Corr.CheckC04.",
-		rule:      e2eRule + "; both posting-list index types with a recording ResultCollector, biased to documents with several simultaneously satisfied conjunctions of equal and different sizes; the roaring scanner's raw result is covered by the roaring cases of C03/C15 that C04 re-runs",
+		headers:   map[string]string{"R": "From BE Require Import Corr.CheckRr."},
+		rule:      e2eRule + "; both posting-list index types with a recording ResultCollector, biased to documents with several simultaneously satisfied conjunctions of equal and different sizes, also over pattern fields (texts containing several keywords); the roaring scanner's raw result (GetRawResult after every retrieval) on default-container and pattern-container fields",
 		shardSize: 25,
 		gen: func(tier string, r *Rand, add func(in interface{})) {
 			n := 40
@@ -286,6 +288,35 @@ func init() {
 				o := &docsetOpts{kind: kind, nFields: 1 + r.Intn(4), maxDocs: 8, multiSat: true, valueShape: intsShape, queryShape: intsShape}
 				add(genDocset(r, o))
 			}
+			// pattern fields: collector hits on the posting-list indexes, raw result on the roaring index
+			for i := 0; i < n/2; i++ {
+				docs, qs := acDocsQueries(r, false)
+				switch i % 3 {
+				case 0, 1:
+					add(eCase{Kind: []string{"kgroups", "compact"}[i%3], Policy: "error", Configs: map[int]string{1: "ac_matcher"}, Docs: docs, Queries: qs})
+				default:
+					c := rCase{Fields: []rField{{F: 0, Cont: "default"}, {F: 1, Cont: "ac_matcher"}}, Docs: docs}
+					for _, q := range qs {
+						c.Ops = append(c.Ops, rOp{S: 0, Op: "reset"}, rOp{S: 0, Op: "retrieve", A: q.A}, rOp{S: 0, Op: "raw"})
+					}
+					add(c)
+				}
+			}
+			// roaring raw result on default-container fields
+			for i := 0; i < n/2; i++ {
+				add(genRrCase(r, 1+r.Intn(4), 0, 0, 8+r.Intn(12), 1+r.Intn(2)))
+			}
 		},
-		exec: execE2E}
+		exec: func(raw json.RawMessage) (execResult, error) {
+			var probe struct {
+				Fields json.RawMessage `json:"fields"`
+			}
+			json.Unmarshal(raw, &probe)
+			if probe.Fields != nil {
+				res, err := execRr(raw)
+				res.Family = "R"
+				return res, err
+			}
+			return execE2E(raw)
+		}}
 }
